@@ -1641,50 +1641,32 @@ namespace igris
         template <typename... Args>
         iterator emplace(const_iterator pos, Args &&... args)
         {
-            // TODO insert optimization
-            size_t _pos = pos - m_data;
-
-            reserve(m_size + 1);
-            m_size++;
-
-            iterator first = m_data + _pos;
-            iterator last = igris::prev((iterator)end());
-            igris::move_backward(first, last, end());
+            iterator first = open_gap(pos - m_data, 1);
             new (first) T(igris::forward<Args>(args)...);
-
             return first;
         }
 
         iterator insert(const_iterator pos, const T &value)
         {
-            // TODO insert optimization
-            size_t _pos = pos - m_data;
-
-            reserve(m_size + 1);
-            m_size++;
-
-            iterator first = m_data + _pos;
-            iterator last = igris::prev((iterator)end());
-            igris::move_backward(first, last, (iterator)end());
-            *first = value;
-
+            // value may refer to an element of this vector
+            T copy(value);
+            iterator first = open_gap(pos - m_data, 1);
+            igris::move_constructor(first, igris::move(copy));
             return first;
         }
 
         iterator insert(iterator pos, const_iterator first, const_iterator last)
         {
-            size_t _pos = pos - m_data;
-            size_t _first = first - m_data;
-            size_t _last = last - m_data;
+            // the source range may lie inside this vector: copy it out before
+            // the buffer is reallocated or shifted
+            vector tmp(m_alloc);
+            tmp.reserve(last - first);
+            for (; first != last; ++first)
+                tmp.push_back(*first);
 
-            size_t sz = _last - _first;
-            reserve(m_size + sz);
-            m_size += sz;
-
-            iterator first_it = m_data + _pos;
-            iterator last_it = igris::prev((iterator)end(), sz);
-            igris::move_backward(first_it, last_it, (iterator)end());
-            igris::copy(m_data + _first, m_data + _last, first_it);
+            iterator first_it = open_gap(pos - m_data, tmp.size());
+            for (size_t i = 0; i < tmp.size(); ++i)
+                igris::move_constructor(first_it + i, igris::move(tmp.m_data[i]));
 
             return first_it;
         }
@@ -1781,6 +1763,31 @@ namespace igris
         // }
 
     protected:
+        // Makes room for count elements at index pos by moving the tail up.
+        // The slots [pos, pos + count) are left unconstructed.
+        iterator open_gap(size_t pos, size_t count)
+        {
+            reserve(m_size + count);
+            T *old_end = m_data + m_size;
+            for (T *src = old_end; src != m_data + pos;)
+            {
+                --src;
+                T *dst = src + count;
+                if (dst >= old_end)
+                    igris::move_constructor(dst, igris::move(*src));
+                else
+                    *dst = igris::move(*src);
+            }
+            // what is left in the gap has been moved from: end its lifetime
+            T *gap_end = m_data + pos + count;
+            if (gap_end > old_end)
+                gap_end = old_end;
+            for (T *ptr = m_data + pos; ptr < gap_end; ++ptr)
+                igris::destructor(ptr);
+            m_size += count;
+            return m_data + pos;
+        }
+
         unsigned char changeBuffer(size_t sz)
         {
             size_t oldcapacity = m_capacity;
